@@ -46,6 +46,8 @@ def Ite(c, a, b):
             return SymComplex(Ite(c, a.re, b.re), Ite(c, a.im, b.im))
         if isinstance(a, (tuple, list)):
             return type(a)(Ite(c, x, y) for x, y in zip(a, b))
+        if isinstance(a, (SymBool, bool)) and isinstance(b, (SymBool, bool)):
+            return sym.Or(sym.And(c, a), sym.And(sym.Not(c), b))
         la, lb = _lift(a), _lift(b)
         ta, tb = la.t, lb.t
         if la.is_int != lb.is_int:
